@@ -4,6 +4,8 @@
 -/
 import SomeipModel.Model.All
 import SomeipModel.Spec.Wire
+import SomeipModel.Spec.Session
+import SomeipModel.Spec.Reply
 open Someip
 
 /-- token-stream parser -/
@@ -275,6 +277,13 @@ def handle (toks : List String) : Option String :=
       let (x, out) := assignOutgoing acc.1 d
       (out, s!"{boolStr x.1}:{x.2}" :: acc.2)) ([], [])
     pure (joinSp res.2.reverse)
+  | "spec.recv" :: r => do
+    let (ms, []) ← pCounted pRecv r | none
+    let hist := ms.map fun (a, mc, fl, sid) => ({ sender := a, mc, flag := fl, sid } : Spec.RxMsg)
+    pure (joinSp ((Spec.detections [] hist).map boolStr))
+  | "spec.send" :: r => do
+    let (ds, []) ← pCounted pDest r | none
+    pure (joinSp ((Spec.expectedSends [] ds).map fun x => s!"{boolStr x.1}:{x.2}"))
   | "svc.msg" :: r => do
     let (sid, r) ← pNat r; let (maj, r) ← pNat r
     let (ms, r) ← pCounted pHandler r
@@ -284,6 +293,14 @@ def handle (toks : List String) : Option String :=
     let out := cfg.messageReceived h mc
     pure (s!"n={out.length}" ++ String.join (out.map fun h =>
       " | " ++ (match h.build with | some b => toHex b | none => "struct.error")))
+  | "spec.reply" :: r => do
+    let (sid, r) ← pNat r; let (maj, r) ← pNat r
+    let (ms, r) ← pCounted pHandler r
+    let (mc, r) ← pBool r
+    let (h, []) ← pHeader r | none
+    let cfg : SvcCfg := { serviceId := sid, versionMajor := maj, methods := ms }
+    let out := Spec.reply cfg h mc
+    pure (s!"n={out.length}" ++ String.join (out.map fun h => " | " ++ fmtHeader h))
   | "stream" :: r => do
     let (cs, []) ← pCounted pHex r | none
     let (hs, e) := readStream cs
